@@ -237,7 +237,9 @@ def mutate(rng, text):
         pre = rng.choice(['', '', '"s":"x",', '"s":"x\\\\",', '"s":"a\\"b",', '"s":"[[{{",', '"s":"\\\\\\"",'])
         br = rng.choice(["[]", "[]", "{}"])
         body = (br[0] * d + br[1] * d) if br == "[]" else ('{"a":' * d + "1" + "}" * d)
-        return m + f"_{d}" + ("_after_literal" if pre else ""), 'STORE ev FOR c1 PAYLOAD {' + pre + '"k":' + body + "}"
+        # the context id is the other literal in front of the payload (delimited by the command grammar, not by JSON rules)
+        ctxlit = rng.choice(["c1", "c1", '"x"', '"a\\"', '"a\\\\"', '"{["', '"a\\" x"'])
+        return m + f"_{d}" + ("_after_literal" if (pre or ctxlit != "c1") else ""), f'STORE ev FOR {ctxlit} PAYLOAD {{' + pre + '"k":' + body + "}"
     if m == "non_ascii":
         pos = rng.randint(0, len(text))
         return m, text[:pos] + rng.choice(["é", "日本", "🚀", "​", "\u0000", "﻿"]) + text[pos:]
